@@ -283,6 +283,61 @@ let sx_generr = function
   | GCheck m -> paren ["check"; ni m]
 
 (* ---------- operations ---------- *)
+
+(* ---------- AST printers (same format as harness/sexp.go) ---------- *)
+let zi z = string_of_z z
+let sx_listable = function
+  | LiStr (nt, cl, v) -> paren ["str"; bl nt; bl cl; atom_of_bytes v]
+  | LiClass (nt, c) -> paren ["class"; bl nt; string_of_cls c]
+  | LiRange (f, t) -> paren ["range"; atom_of_bytes f; atom_of_bytes t]
+let rec sx_expr = function
+  | ELoop (mn, mx, fw, nm, b) -> paren ["loop"; ni mn; zi mx; bl fw; atom_of_bytes nm; sx_expr b]
+  | EBranch (l, r) -> paren ["branch"; sx_lit l; sx_expr r]
+  | EDec (n, l) -> paren ["dec"; atom_of_bytes n; sx_lit l]
+  | ESub (n, b) -> paren ["sub"; atom_of_bytes n; sx_exprs b]
+  | EList (nt, items) -> paren ["list"; bl nt; paren (List.map sx_listable items)]
+  | EPrim l -> paren ["prim"; sx_lit l]
+and sx_lit = function
+  | LStr (nt, cl, v) -> paren ["str"; bl nt; bl cl; atom_of_bytes v]
+  | LSubExpr b -> paren ["subexpr"; sx_exprs b]
+  | LVar n -> paren ["var"; atom_of_bytes n]
+  | LClass (nt, c) -> paren ["class"; bl nt; string_of_cls c]
+and sx_exprs es = paren (List.map sx_expr (exprs_to_list es))
+let sx_atom = function
+  | AStr (nt, cl, v) -> paren ["str"; bl nt; bl cl; atom_of_bytes v]
+  | AVar n -> paren ["var"; atom_of_bytes n]
+let rec sx_command = function
+  | CFind (all, sk, tk, la, b) -> paren ["find"; bl all; ni sk; ni tk; ni la; sx_exprs b]
+  | CReplace (all, sk, tk, la, b, r) -> paren ["replace"; bl all; ni sk; ni tk; ni la; sx_exprs b; paren (List.map sx_atom r)]
+  | CSetPattern (id, p, s) -> paren ["set"; atom_of_bytes id; paren ["pattern"; sx_exprs p; sx_pstmts s]]
+  | CSetTransform (id, s) -> paren ["set"; atom_of_bytes id; paren ["transform"; sx_pstmts s]]
+  | CSetMatches (id, c) -> paren ["set"; atom_of_bytes id; paren ["matches"; sx_command c]]
+let sx_program cs = paren (List.map sx_command cs)
+
+(* UTF-8 decoding of a byte list into code points (valid input only; anything else -> U+FFFD per byte) *)
+let runes_of_bytes (b : bytes) : n list =
+  let a = Array.of_list (List.map int_of_n b) in
+  let len = Array.length a in
+  let out = ref [] in
+  let i = ref 0 in
+  let cont k = !i + k < len && a.(!i + k) land 0xC0 = 0x80 in
+  while !i < len do
+    let c = a.(!i) in
+    if c < 0x80 then (out := c :: !out; incr i)
+    else if c land 0xE0 = 0xC0 && c >= 0xC2 && cont 1 then (out := (((c land 0x1F) lsl 6) lor (a.(!i+1) land 0x3F)) :: !out; i := !i + 2)
+    else if c land 0xF0 = 0xE0 && cont 1 && cont 2 then
+      (out := (((c land 0x0F) lsl 12) lor ((a.(!i+1) land 0x3F) lsl 6) lor (a.(!i+2) land 0x3F)) :: !out; i := !i + 3)
+    else if c land 0xF8 = 0xF0 && cont 1 && cont 2 && cont 3 then
+      (out := (((c land 0x07) lsl 18) lor ((a.(!i+1) land 0x3F) lsl 12) lor ((a.(!i+2) land 0x3F) lsl 6) lor (a.(!i+3) land 0x3F)) :: !out; i := !i + 4)
+    else (out := 0xFFFD :: !out; incr i)
+  done;
+  List.rev_map n_of_int !out
+
+let string_of_ttype (t : ttype) : string = Ttype_names.name t
+let string_of_lexerr = function
+  | LEUnknownToken -> "unknown-token" | LEUnendingString -> "unending-string"
+  | LEUnendingBlockComment -> "unending-block-comment" | LEUnendingRegexp -> "unending-regexp"
+
 let fuel_of_opt = function [] -> vm_fuel_default | x :: _ -> nat_of x
 
 let handle (case : sx) : string =
@@ -360,6 +415,18 @@ let handle (case : sx) : string =
              | ROk ms -> let j = matches_json text_name ms in paren [atom_of_bytes (compact j); atom_of_bytes (indent O j)]
              | _ -> "(none)") texts in
            id ^ "\t" ^ paren ["ok"; paren outs])
+  | L [A id; A "lex"; src] ->
+      (match lex (runes_of_bytes (by_of src)) with
+       | LexOk ts -> id ^ "\t" ^ paren ["ok"; paren (List.map (fun t -> paren [string_of_ttype t.ttyp; atom_of_bytes t.lexeme]) ts)]
+       | LexErr e -> id ^ "\t" ^ paren ["err"; string_of_lexerr e]
+       | LexHang -> id ^ "\t(hang)")
+  | L [A id; A "parse"; src] ->
+      (match parse_source (runes_of_bytes (by_of src)) with
+       | FOk p -> id ^ "\t" ^ paren ["ok"; sx_program p]
+       | FLexErr e -> id ^ "\t" ^ paren ["lexerr"; string_of_lexerr e]
+       | FParseErr -> id ^ "\t(parseerr)"
+       | FCrash -> id ^ "\t(crash)"
+       | FHang -> id ^ "\t(hang)")
   | L (A id :: A "pm" :: pat :: [L names]) ->
       id ^ "\t" ^ paren (List.map (fun nm -> bl (pm (by_of nm) (by_of pat))) names)
   | L (A id :: A "glob" :: tree :: [L pats]) ->
